@@ -24,6 +24,10 @@ type c17Op struct {
 	// then repeats its PUBREL this many times after the exchange completed.
 	Deliver2   bool `json:"deliver2,omitempty"`
 	ExtraPubrel int  `json:"extra_pubrel,omitempty"`
+	// GwDisconnects: the gateway answers the call's request with a DISCONNECT instead of the
+	// acknowledgement (it has dropped the session): the call was not acknowledged, it must not return
+	// nil; the history ends there
+	GwDisconnects bool `json:"gw_disconnects,omitempty"`
 	// Inbound2: when the first transmission of this call's request arrives, the gateway also starts a
 	// QoS 2 delivery to the client which carries the same message ID as the request and completes
 	// (PUBREC, PUBREL, PUBCOMP) while the call may still be waiting for its acknowledgement.
@@ -103,6 +107,11 @@ func genC17(t *rapid.T) c17Case {
 		if steps > 0 && rapid.IntRange(0, 3).Draw(t, "inbound2") == 0 {
 			op.Inbound2 = true
 		}
+		if steps > 0 && !op.Inbound2 && rapid.IntRange(0, 7).Draw(t, "gw_disconnects") == 0 {
+			op.GwDisconnects = true
+			c.Ops = append(c.Ops, op)
+			return c
+		}
 		c.Ops = append(c.Ops, op)
 	}
 	return c
@@ -154,6 +163,9 @@ func runC17(c c17Case) (r vf.Result) {
 		}
 		if cur == nil || cur.Deliver2 {
 			return g.Answer(p)
+		}
+		if cur.GwDisconnects && (p.Type == snref.PUBLISH || p.Type == snref.SUBSCRIBE || p.Type == snref.UNSUBSCRIBE || p.Type == snref.REGISTER) {
+			return []snref.Pkt{{Type: snref.DISCONNECT, NoDuration: true}}
 		}
 		step := 0
 		if p.Type == snref.PUBREL {
@@ -256,6 +268,14 @@ func runC17(c c17Case) (r vf.Result) {
 			r.Fail("call-did-not-return/"+op.Call.API, "%v still blocked after %v\n%s", op.Call, max, s.Dump(30))
 			return
 		}
+		if op.GwDisconnects {
+			r.NonTrivial = true
+			r.Label("gateway-answers-with-disconnect")
+			if cs.Err == nil {
+				r.Fail("nil-although-never-acknowledged/"+fmt.Sprintf("%s/qos=%d", op.Call.API, op.Call.QoS)+"/gateway-disconnected", "%v returned nil although the gateway answered with DISCONNECT and never acknowledged it\n%s", op.Call, s.Dump(30))
+			}
+			return
+		}
 		// expected outcome from the plan
 		wantOK := true
 		lossy := false
@@ -332,7 +352,7 @@ func runC17(c c17Case) (r vf.Result) {
 func TestC17(t *testing.T) {
 	vf.Check(t, vf.Prop[c17Case]{
 		ID: "C17", Name: "client-qos-under-loss", Bubble: true,
-		Rule: "real client (RetryCount 0-4) against a scripted gateway with a drawn fate for every transmission (original and each retransmission) of every protocol step of Register, Subscribe, Unsubscribe and Publish (QoS 0-3; short, predefined and registered topics): lost / processed but acknowledgement lost / acknowledged / acknowledged twice / lost while a stale acknowledgement of another kind with the same message ID arrives (PUBCOMP for a QoS 2 PUBLISH which awaits PUBREC, PUBREC for a QoS 1 one, PUBACK for a PUBREL, ...); plus QoS 2 deliveries from the gateway whose PUBREL is repeated 0-3 times after the exchange completed; a quarter of the calls overlap with a complete QoS 2 delivery from the gateway which carries the call's own message ID. Non-trivial = a plan with at least one loss, or a PUBREL after completion; distinct by case.",
+		Rule: "real client (RetryCount 0-4) against a scripted gateway with a drawn fate for every transmission (original and each retransmission) of every protocol step of Register, Subscribe, Unsubscribe and Publish (QoS 0-3; short, predefined and registered topics): lost / processed but acknowledgement lost / acknowledged / acknowledged twice / answered with a DISCONNECT of the gateway instead (the call must then fail) / lost while a stale acknowledgement of another kind with the same message ID arrives (PUBCOMP for a QoS 2 PUBLISH which awaits PUBREC, PUBREC for a QoS 1 one, PUBACK for a PUBREL, ...); plus QoS 2 deliveries from the gateway whose PUBREL is repeated 0-3 times after the exchange completed; a quarter of the calls overlap with a complete QoS 2 delivery from the gateway which carries the call's own message ID. Non-trivial = a plan with at least one loss, or a PUBREL after completion; distinct by case.",
 		Assumptions: []string{"PUBACKs with a rejecting return code and PUBRELs for message IDs that never existed are not generated", "after a call that the plan makes fail, the rest of the history is not judged"},
 		Gen:         genC17,
 		Run:         runC17,
